@@ -14,6 +14,8 @@ fn profile(thorough: bool) -> Profile {
         encaps_for: 16,
         check: 6,
         roundtrip: 3,
+        // "unless the corresponding secret ... was removed from the master key": a few removals
+        prune: 2,
         bad_pct: 2,
         min_ops: 1,
         max_ops: if thorough { 50 } else { 25 },
@@ -59,7 +61,7 @@ pub fn run(ctx: &Ctx, col: &Collector) -> Meta {
     run_hist(ctx, col, &h, ctx.n(6000, 40_000));
     Meta {
         level: "exploration",
-        rule: "random histories of rekey over arbitrary policies (hence arbitrary subsets of a key's rights), key generation, refresh with either flag, encapsulation under the latest and earlier public keys (half of them derived from an existing key's rights), round-trips and matrix checkpoints on a random fixed structure; the model tracks the numbered revision of every right in the master key, each public key, user key and encapsulation; serialized chains (length, order, secret bytes) are compared with the model after every rekey / refresh through the independent codec. Non-trivial = history with a partial rotation (a strict subset of some key's rights rekeyed), a refreshed key whose chains have different lengths, and an encapsulation made under a non-newest revision or an earlier public key; distinct by the whole case".into(),
+        rule: "random histories of rekey over arbitrary policies (hence arbitrary subsets of a key's rights), key generation, refresh with either flag, encapsulation under the latest and earlier public keys (half of them derived from an existing key's rights), a few prunes (removed secrets), round-trips and matrix checkpoints on a random fixed structure; the model tracks the numbered revision of every right in the master key, each public key, user key and encapsulation; serialized chains (length, order, secret bytes) are compared with the model after every rekey / refresh through the independent codec. Non-trivial = history with a partial rotation (a strict subset of some key's rights rekeyed), a refreshed key whose chains have different lengths, and an encapsulation made under a non-newest revision or an earlier public key; distinct by the whole case".into(),
         exhaustive: false,
         assumptions: vec!["oracle = revision-level reference model; a key opens an encapsulation iff it holds one of the targeted (right, revision) pairs".into()],
     }
